@@ -8,6 +8,7 @@ import (
 	"bytes"
 	"fmt"
 	"math/rand/v2"
+	"slices"
 
 	"github.com/fluhus/biostuff/sequtil"
 )
@@ -69,9 +70,29 @@ func withCap(p []byte, spare int) []byte {
 	if p == nil && spare == 0 {
 		return nil
 	}
-	b := make([]byte, len(p), len(p)+spare)
+	b := make([]byte, len(p)+spare)
 	copy(b, p)
-	return b
+	// the spare capacity is dirty (a recycled buffer): stale bytes must not leak into what gets appended
+	for i := len(p); i < len(b); i++ {
+		b[i] = 0xff
+	}
+	return b[:len(p)]
+}
+
+// spareSet: spare capacities to offer for an append of need bytes — none, more
+// than enough, and NOT enough (1 and need-1: the callee must grow a buffer whose
+// tail is dirty).
+func spareSet(need int, full bool) []int {
+	if !full {
+		return []int{0}
+	}
+	out := []int{0, need + 2}
+	for _, v := range []int{1, need - 1, need} {
+		if v >= 1 && !slices.Contains(out, v) {
+			out = append(out, v)
+		}
+	}
+	return out
 }
 
 // checkRevComp applies the ReverseComplement monitors to one sequence.
@@ -83,10 +104,7 @@ func checkRevComp(k *K, s []byte, full bool) {
 		prefixes = dstPrefixes
 	}
 	for pi, p := range prefixes {
-		for _, spare := range []int{0, len(s) + 3} {
-			if !full && spare > 0 {
-				continue
-			}
+		for _, spare := range spareSet(len(s), full) {
 			dst := withCap(p, spare)
 			got := sequtil.ReverseComplement(dst, s)
 			if !bytes.Equal(got[:min(len(p), len(got))], p) || !bytes.Equal(got[min(len(p), len(got)):], want) {
@@ -133,7 +151,7 @@ func checkCanonical(k *K, s []byte, kk int) {
 			if n2 >= len(items) || !bytes.Equal(kmer, items[n2]) {
 				k.Input("seq", s)
 				k.Input("k", kk)
-				k.Failf("canonical-reuse", "second range over one CanonicalSubsequences(%q,%d) value: item %d = %q differs from the first pass", s, kk, n2, kmer)
+				k.Failf("canonical-reuse", "second range over one CanonicalSubsequences(%.300q,%d) value: item %d = %.300q differs from the first pass", s, kk, n2, kmer)
 				return
 			}
 			n2++
@@ -141,7 +159,7 @@ func checkCanonical(k *K, s []byte, kk int) {
 		if n2 != len(items) {
 			k.Input("seq", s)
 			k.Input("k", kk)
-			k.Failf("canonical-reuse", "second range over one CanonicalSubsequences(%q,%d) value yields %d items, the first pass %d", s, kk, n2, len(items))
+			k.Failf("canonical-reuse", "second range over one CanonicalSubsequences(%.300q,%d) value yields %d items, the first pass %d", s, kk, n2, len(items))
 			return
 		}
 	}
@@ -149,14 +167,14 @@ func checkCanonical(k *K, s []byte, kk int) {
 	if len(items) != wantN {
 		k.Input("seq", s)
 		k.Input("k", kk)
-		k.Failf("canonical-count", "CanonicalSubsequences(%q,%d) yields %d items, want %d", s, kk, len(items), wantN)
+		k.Failf("canonical-count", "CanonicalSubsequences(%.300q,%d) yields %d items, want %d", s, kk, len(items), wantN)
 		return
 	}
 	for i, it := range items {
 		if w := refCanonical(s[i : i+kk]); !bytes.Equal(it, w) {
 			k.Input("seq", s)
 			k.Input("k", kk)
-			k.Failf("canonical-item", "CanonicalSubsequences(%q,%d) item %d = %q, want %q", s, kk, i, it, w)
+			k.Failf("canonical-item", "CanonicalSubsequences(%.300q,%d) item %d = %.300q, want %.300q", s, kk, i, it, w)
 			return
 		}
 	}
@@ -168,7 +186,7 @@ func checkCanonical(k *K, s []byte, kk int) {
 		if j < 0 || !bytes.Equal(kmer, items[j]) {
 			k.Input("seq", s)
 			k.Input("k", kk)
-			k.Failf("canonical-strand", "CanonicalSubsequences of the reverse complement of %q (k=%d): item %d = %q, want %q", s, kk, n, kmer, func() []byte {
+			k.Failf("canonical-strand", "CanonicalSubsequences of the reverse complement of %q (k=%d): item %d = %.300q, want %.300q", s, kk, n, kmer, func() []byte {
 				if j >= 0 {
 					return items[j]
 				}
@@ -192,6 +210,8 @@ func init() {
 		ID:    "C12",
 		Level: "exploration",
 		Rule: "every sequence over aAcCgGtTnN up to a length bound (all dst prefixes, with and without spare capacity), random sequences up to length 10000, all k from 1 to len+2; every byte value 0..255 alone and embedded at each position of a valid sequence for the accept/panic boundary; " +
+			"k = 2^e-1..2^e+1 up to 2^20/2^24 with a few k-mers per sequence; dst with dirty spare capacity 0/1/need-1/need/need+2; " +
+			"readers unit: the calls run while reader goroutines read the protected memory, -race build reports any write to it (also one undone before returning); " +
 			"results compared with an independent complement map + reversal; non-trivial = sequence of length >= 2; distinct by construction in the exhaustive scope, by hash otherwise",
 		Assumptions: []string{"items of CanonicalSubsequences are copied at yield time (they may alias internal buffers)"},
 		MinEvents:   map[string]int64{"revcomp_checked": 100000, "canonical_checked": 100000, "panics_observed": 246, "bytes_accepted": 10},
@@ -199,6 +219,8 @@ func init() {
 			{Name: "exhaustive", QShards: 4, TShards: 10, Run: c12Exhaustive},
 			{Name: "random", TShards: 4, Run: c12Random},
 			{Name: "bytes", Run: c12Bytes},
+			{Name: "hugek", QShards: 2, TShards: 8, Run: c12HugeK},
+			{Name: "readers", Race: true, QShards: 2, TShards: 4, Run: c12Readers},
 		},
 	})
 }
@@ -452,3 +474,39 @@ func c12Bytes(c *Ctx) {
 }
 
 var _ *rand.Rand
+
+// c12HugeK: k on and next to powers of two far above any block or buffer size
+// an implementation might process the sequence in, with only a few k-mers per
+// sequence (len(seq) just above k) so that the cost stays linear.
+func c12HugeK(c *Ctx) {
+	exps := []int{8, 10, 12, 14, 16, 17, 20}
+	if c.Thorough {
+		exps = []int{8, 9, 10, 11, 12, 13, 14, 15, 16, 17, 18, 19, 20, 21, 22, 23, 24}
+	}
+	idx := int64(0)
+	for _, e := range exps {
+		for d := -1; d <= 1; d++ {
+			for _, extra := range []int{0, 1, 40} {
+				c.Case(idx, func(k *K) {
+					r := k.Rand()
+					kk := 1<<e + d
+					if e >= 22 && extra > 1 {
+						extra = 3
+					}
+					s := randSeq(r, []byte(pick(r, []string{dna10, "ACGT"})), kk+extra)
+					if r.IntN(3) == 0 { // reverse-palindromic: every canonical comparison is a tie or decided late
+						h := s[:len(s)/2]
+						s = append(append([]byte{}, h...), refRevComp(h)...)
+						s = append(s, randSeq(r, []byte("ACGT"), kk+extra-len(s))...)
+					}
+					k.Input("k", kk)
+					k.Input("seq_len", len(s))
+					checkCanonical(k, s, kk)
+					k.Count("huge_k_cases", 1)
+					k.Nontrivial([]byte(fmt.Sprint(kk, extra)), s[:32])
+				})
+				idx++
+			}
+		}
+	}
+}
